@@ -8,7 +8,7 @@ E = {
     "C01": dict(title="every trace agrees with assess on its own choices and arguments", strength="partial",
                 modules=["GenjaxVerif.Props.C01"],
                 theorems=["C01_trace_assess_partial", "C01_trace_assess_own_args_partial", "C01_assess_rebuilds_trace", "C01_refuted"],
-                props=["C01"], opts={"assessSelf": 2.0}, focus={}),
+                props=["C01"], opts={"assessSelf": 2.0, "upd": 2.0, "masked": 0.3}, focus={"vmap": 2.0, "scan": 2.0}),
     "C02": dict(title="scores are the exact joint log-density defined by the program", strength="partial",
                 modules=["GenjaxVerif.Props.C02"],
                 theorems=["C02_assess_is_joint_logdensity", "C02_score_is_sum_over_live_choices", "C02_leaf_logdensity", "C02_trace_score_eq_assess_partial",
@@ -17,7 +17,7 @@ E = {
     "C05": dict(title="update installs the constraint and weighs by the score change", strength="partial",
                 modules=["GenjaxVerif.Props.C05"],
                 theorems=["C05_update_weight", "C05_new_trace_holds_new_args", "C05_update_installs_constraint", "C05_update_keeps_unconstrained", "C05_update_shape", "C05_leaf_update"],
-                props=["C05"], opts={"upd": 4.0, "regen": 0.2, "proj": 0.2, "bwd": 0.2, "max_ops": 4}, focus={}),
+                props=["C05"], opts={"upd": 4.0, "regen": 0.2, "proj": 0.2, "bwd": 0.2, "max_ops": 4, "masked": 0.2}, focus={}),
     "C07": dict(title="regenerate resamples exactly the selected choices", strength="partial",
                 modules=["GenjaxVerif.Props.C07"],
                 theorems=["C07_regenerate_weight", "C07_unselected_unchanged", "C07_leaf_regenerate", "C07_mask_switch_not_supported", "C07_vmap_not_supported"],
@@ -44,14 +44,14 @@ E = {
                 modules=["GenjaxVerif.Props.C06"],
                 theorems=["C06_leaf_roundtrip_partial", "C06_backward_structure", "C06_refuted", "C06_switch_backward_is_the_branchs",
                           "C06_static_request_backward"],
-                props=["C06", "C38"], opts={"upd": 4.0, "bwd": 1.0, "regen": 0.2, "proj": 0.1, "max_ops": 4, "sreq": 3.0},
-                focus={"int": 14.0, "static": 4.0}),
+                props=["C06", "C38"], opts={"upd": 4.0, "bwd": 1.0, "regen": 0.6, "proj": 0.1, "max_ops": 4, "sreq": 3.0, "idx": 1.5},
+                focus={"int": 14.0, "static": 4.0, "scan": 3.0, "vmap": 3.0, "walk": 0.5}),
     "C08": dict(title="change tags are sound: NoChange really means unchanged", strength="partial",
                 modules=["GenjaxVerif.Props.C09", "GenjaxVerif.Props.C05", "GenjaxVerif.Props.C38"],
                 theorems=["GenjaxVerif.IR.C09_noninterference", "GenjaxVerif.IR.C09_tags_value_independent",
                           "GenjaxVerif.IR.C09_default_rule", "C05_leaf_update", "C38_empty_update_is_identity"],
                 props=["C08"], opts={"upd": 4.0, "regen": 1.0, "proj": 0.0, "retag": True, "bwd": 0.2},
-                focus={"switch": 0.2, "orelse": 0.2}),
+                focus={"switch": 0.2, "orelse": 0.2, "int": 4.0, "dimapped": 4.0}),
     "C11": dict(title="vmap and repeat behave as independent elementwise calls", strength="full",
                 modules=["GenjaxVerif.Props.C11"],
                 theorems=["C11_vmap_elementwise", "C11_element_input", "C11_indexed_constraint_only_its_element",
@@ -69,7 +69,7 @@ E = {
                 modules=["GenjaxVerif.Props.C13"],
                 theorems=["C13_switch_is_branch", "C13_switch_update_same_branch", "C13_switch_args", "C13_orElse_def",
                           "C13_orElse_index", "C13_clamp"],
-                props=["C01", "C02", "C03", "C05", "C10"], opts={"upd": 1.5, "gen": 1.5, "regen": 0.0, "proj": 1.0, "bwd": 0.0, "py": 0.3},
+                props=["C01", "C02", "C03", "C05", "C10"], opts={"upd": 1.5, "gen": 1.5, "regen": 0.0, "proj": 1.0, "bwd": 0.0, "py": 0.3, "oob_family": True},
                 focus={"switch": 10.0, "orelse": 6.0, "vmap": 2.0, "oob": 0.2}),
     "C15": dict(title="dimap, map and contramap only transform arguments and return values", strength="full",
                 modules=["GenjaxVerif.Props.C15"],
@@ -91,7 +91,7 @@ E = {
                 modules=["GenjaxVerif.Props.C19", "GenjaxVerif.Props.C20", "GenjaxVerif.Props.C11"],
                 theorems=["GenjaxVerif.MaskModel.C19_mode_invariance", "GenjaxVerif.MaskModel.C20_flagop_mode_invariance",
                           "C11_vmap_elementwise"],
-                props=["C01", "C02", "C03", "C05", "C07", "C10", "C23"], opts={"jit": 0.6, "py": 0.5, "vbatch": 0.4, "start_gen": 0.2}, focus={"switch": 3.0, "orelse": 2.0, "oob": 0.25}),
+                props=["C01", "C02", "C03", "C05", "C07", "C10", "C23"], opts={"jit": 0.6, "py": 0.5, "vbatch": 0.4, "start_gen": 0.2, "oob_family": True}, focus={"switch": 3.0, "orelse": 2.0, "oob": 0.25}),
     "C32": dict(title="generative function closures and keyword handling are transparent", strength="partial",
                 modules=["GenjaxVerif.Props.C32"],
                 theorems=["C32_closure_args", "C32_closure_transparent"],
